@@ -36,6 +36,10 @@ def L(*xs):
     return {'t': 'list', 'v': list(xs)}
 
 
+def TUP(*xs):
+    return {'t': 'tuple', 'v': list(xs)}
+
+
 def EN(enum, member):
     return {'t': 'enum', 'enum': enum, 'member': member}
 
@@ -148,6 +152,19 @@ class Prog:
 
     def set(self, obj, attr, val, part='value'):
         self.steps.append({'op': 'set', 'obj': obj, 'attr': attr, 'part': part, 'val': val})
+
+    def extend(self, obj, attr, before, more):
+        """In-place extension of a list value: obj.<attr>.value.extend(more); the specification then holds before+more."""
+        self.steps.append({'op': 'set', 'obj': obj, 'attr': attr, 'part': 'value', 'val': L(*(list(before) + list(more))),
+                           'inplace': list(more)})
+
+    def set_cast(self, ch, dtype):
+        """ch.cast_dtype = <numpy type> (None clears it); later writes are expected to cast to it."""
+        self.steps.append({'op': 'set', 'obj': ch, 'part': 'cast_dtype', 'val': {'t': 'none'} if dtype is None else {'t': 'dtype', 'v': dtype}})
+        if dtype is None:
+            self._ch_cast.pop(ch, None)
+        else:
+            self._ch_cast[ch] = dtype
 
     def set_origin_ref(self, obj, v):
         self.steps.append({'op': 'set', 'obj': obj, 'part': 'origin_reference', 'v': v})
